@@ -340,9 +340,16 @@ fn exec_remote(caps: &[usize], ops: &[Op]) -> Outcome {
                             out.push(0)
                         }
                         Err(e) => {
-                            // a remote subscriber that failed is reported to the sender; not a property violation
+                            // the error of a failed remote subscriber is reported only when it was the last one
                             let _ = e;
                             out.push(2)
+                        }
+                    }
+                    if matches!(out.last(), Some(0) | Some(2)) {
+                        if let Some(k) = subs.iter().position(|s| s.rx.is_some()) {
+                            if oracle.is_ok() {
+                                oracle = Err(format!("C16 send of value {sent} failed although subscriber {k} is alive (a failed or slow subscriber must not stop the broadcast for the others)"));
+                            }
                         }
                     }
                     sent += 1;
@@ -403,8 +410,100 @@ fn exec_remote(caps: &[usize], ops: &[Op]) -> Outcome {
     })
 }
 
+/// first input number of a case in which several OS threads send concurrently on clones of the sender
+const THREADS: u128 = 900;
+
+/// a value whose `Clone` takes a while, so that concurrent `send` calls overlap
+#[derive(serde::Serialize, serde::Deserialize, Debug, PartialEq)]
+struct Slow(u64);
+impl Clone for Slow {
+    fn clone(&self) -> Self {
+        let spins = 200 + (self.0 % 7) * 300;
+        for _ in 0..spins {
+            std::hint::spin_loop();
+        }
+        if self.0 % 3 == 0 {
+            std::thread::yield_now();
+        }
+        Slow(self.0)
+    }
+}
+
+/// `send` is a plain function on a shared sender: concurrent calls must behave as if one ran after the
+/// other (every value reaches every subscriber with free space, in each caller's order, and no call
+/// reports Closed while a subscriber is alive).  input: [900; threads; per_thread; subscribers]
+fn exec_threads(nthreads: usize, per: usize, nsubs: usize) -> (String, String) {
+    let rt = tokio::runtime::Builder::new_multi_thread().worker_threads(1).enable_all().build().unwrap();
+    let total = nthreads * per;
+    let _enter = rt.enter();
+    let (tx, rx0) = broadcast::channel::<Slow, codec::Default, 2>(total + 1);
+    let mut rxs = vec![rx0];
+    for _ in 1..nsubs {
+        rxs.push(tx.subscribe(total + 1));
+    }
+    let errors = std::sync::Arc::new(std::sync::Mutex::new(Vec::<String>::new()));
+    let barrier = std::sync::Arc::new(std::sync::Barrier::new(nthreads));
+    let mut hs = Vec::new();
+    for t in 0..nthreads {
+        let tx = tx.clone();
+        let handle = rt.handle().clone();
+        let errors = errors.clone();
+        let barrier = barrier.clone();
+        hs.push(std::thread::spawn(move || {
+            let _g = handle.enter();
+            barrier.wait();
+            for i in 0..per {
+                let v = (t * 1_000_000 + i) as u64;
+                if let Err(e) = tx.send(Slow(v)) {
+                    errors.lock().unwrap().push(format!("send of {v} by thread {t} failed although every subscriber is alive with free space: {e}"));
+                }
+            }
+        }));
+    }
+    for h in hs {
+        let _ = h.join();
+    }
+    let sig = format!("threads{}:subs{}", nthreads, nsubs);
+    if let Some(e) = errors.lock().unwrap().first() {
+        return (sig, format!("FAIL: C16 {e}"));
+    }
+    for (k, rx) in rxs.iter_mut().enumerate() {
+        let mut got: Vec<u64> = Vec::new();
+        loop {
+            match rx.try_recv() {
+                Ok(Slow(v)) => got.push(v),
+                Err(broadcast::TryRecvError::Lagged) => return (sig, format!("FAIL: C16 subscriber {k} lagged although its buffer holds every value sent")),
+                Err(_) => break,
+            }
+        }
+        if got.len() != total {
+            return (sig, format!("FAIL: C16 subscriber {k} obtained {} of {total} values sent concurrently by {nthreads} threads, without a lag marker", got.len()));
+        }
+        for t in 0..nthreads {
+            let mine: Vec<u64> = got.iter().copied().filter(|v| (*v / 1_000_000) as usize == t).collect();
+            if mine != (0..per).map(|i| (t * 1_000_000 + i) as u64).collect::<Vec<_>>() {
+                return (sig, format!("FAIL: C16 subscriber {k}: values of thread {t} are out of order or incomplete"));
+            }
+        }
+    }
+    drop(rxs);
+    drop(tx);
+    drop(_enter);
+    drop(rt);
+    (sig, "ok".into())
+}
+
 pub fn exec(inp: &[u128]) -> (Vec<u128>, String, String) {
     let Some((&n0, rest)) = inp.split_first() else { return (vec![98], "malformed".into(), "ok".into()) };
+    if n0 == THREADS {
+        if rest.len() < 3 {
+            return (vec![98], "malformed".into(), "ok".into());
+        }
+        #[cfg(remoc_verif)]
+        remoc::exec::verif::set_defer_seed(0);
+        let (sig, oracle) = exec_threads((rest[0] as usize).clamp(2, 4), (rest[1] as usize).clamp(1, 200), (rest[2] as usize).clamp(1, 3));
+        return (vec![96], sig, oracle);
+    }
     let remote = n0 >= REMOTE;
     let n = (if remote { n0 - REMOTE } else { n0 }) as usize;
     if rest.len() < n {
@@ -497,6 +596,10 @@ pub fn gen(r: &mut Rng, i: usize) -> Vec<Vec<u128>> {
     let every_q = !r.chance(1, 3);
     inp.extend(gen_steps(r, n, every_q));
     let mut cases = vec![inp.clone()];
+    // every 16th case: OS threads sending concurrently on clones of the sender (oracle only)
+    if i % 16 == 5 {
+        cases.push(vec![THREADS, r.range(2, 4) as u128, r.range(20, 120) as u128, r.range(1, 3) as u128]);
+    }
     // every 8th case also runs with remote subscribers (oracle only), with transport stalls mixed in
     if i % 8 == 0 {
         let mut rem = vec![n as u128 + REMOTE];
@@ -520,6 +623,19 @@ pub fn gen(r: &mut Rng, i: usize) -> Vec<Vec<u128>> {
                 stalled = !stalled;
                 rem.push(if stalled { 5 } else { 6 });
             }
+        }
+        // a subscriber fails (dropped at the remote endpoint) and the failure is noticed by a send at which
+        // the others are lagging; then the others catch up
+        if r.chance(1, 2) {
+            rem.extend([6, 3, 0, 4]);
+            for _ in 0..r.range(3, 8) {
+                rem.push(0);
+            }
+            rem.push(4);
+            for k in 0..6u128 {
+                rem.extend([2, k, 3]);
+            }
+            rem.extend([0, 4, 0, 4]);
         }
         cases.push(rem);
     }
